@@ -82,8 +82,10 @@ class Check:
         self.work = os.path.join(VERIF, "work", pid)
         shutil.rmtree(self.work, ignore_errors=True)
         os.makedirs(self.work)
-        os.makedirs(os.path.join(VERIF, "replays", pid), exist_ok=True)
-        os.makedirs(os.path.join(VERIF, "evidence"), exist_ok=True)
+        # VERIF_OUT (development aid): evidence and replay files of runs against another checkout go elsewhere
+        self.outdir = os.environ.get("VERIF_OUT", VERIF)
+        os.makedirs(os.path.join(self.outdir, "replays", pid), exist_ok=True)
+        os.makedirs(os.path.join(self.outdir, "evidence"), exist_ok=True)
         self.t0 = time.time()
         self.states = 0
         self.transitions = 0
@@ -109,8 +111,15 @@ class Check:
         """Always rebuilds against /repo's current working tree (build cache makes it cheap)."""
         shutil.copy(os.path.join(REPO, "go.sum"), os.path.join(HARNESS, "go.sum"))
         out = os.path.join(self.work, "vh")
+        modargs = []
+        if os.path.realpath(REPO) != "/repo":
+            # development aid (seeded-defect runs): link the harness against another checkout without touching /repo
+            alt = os.path.join(self.work, "go.alt.mod")
+            open(alt, "w").write(open(os.path.join(HARNESS, "go.mod")).read().replace("=> /repo", "=> " + os.path.realpath(REPO)))
+            shutil.copy(os.path.join(REPO, "go.sum"), os.path.join(self.work, "go.alt.sum"))
+            modargs = ["-modfile", alt]
         for attempt in range(4):
-            p = sh(["go", "build", "-tags", "verif", "-o", out, "./cmd/vh"], cwd=HARNESS, env=GOENV, check=False, timeout=900)
+            p = sh(["go", "build"] + modargs + ["-tags", "verif", "-o", out, "./cmd/vh"], cwd=HARNESS, env=GOENV, check=False, timeout=900)
             # while several people edit harness/ concurrently another package may be mid-edit: retry when the
             # errors are outside this property's own package
             own = "internal/%s/" % self.pid.lower()
@@ -280,7 +289,7 @@ class Check:
                     v["count"] = v.get("count", 1) + 1
             return
         safe = re.sub(r"[^A-Za-z0-9_.=-]+", "_", key)[:80]
-        path = os.path.join(VERIF, "replays", self.pid, "%s-%d.json" % (safe, self.seed))
+        path = os.path.join(self.outdir, "replays", self.pid, "%s-%d.json" % (safe, self.seed))
         json.dump({"property": self.pid, "key": key, "what": what, "tier": self.tier, "seed": self.seed, "replay": replay_obj},
                   open(path, "w"), indent=1, default=str)
         self.violations.append({"key": key, "what": what, "replay": path})
@@ -309,7 +318,7 @@ class Check:
         evd = {"property_id": self.pid, "tier": self.tier, "seed": self.seed, "level": level, "coverage": cov,
                "assumptions": self.assumptions, "wall_s": round(wall, 1), "violations": len(self.violations),
                "notes": self.notes}
-        json.dump(evd, open(os.path.join(VERIF, "evidence", self.pid + ".json"), "w"), indent=1, default=str)
+        json.dump(evd, open(os.path.join(self.outdir, "evidence", self.pid + ".json"), "w"), indent=1, default=str)
         for k in self.known_hit:
             print("KNOWN-FINDING: property=%s %s — %s" % (self.pid, k["key"], k["what"]))
         for v in self.violations:
